@@ -285,6 +285,9 @@ const MUTATIONS: &[&str] = &[
     "dup-arg-bad-second",
     // subscriptions: response keys are counted (commit a3d3d08)
     "subscription-same-key-twice",
+    // a variable whose declared type has fewer list levels than the position it is used at (list input coercion does not
+    // apply to variables: AreTypesCompatible is false) — argument, input-object field, item of a list literal; in fragments too
+    "var-fewer-list-levels", "var-fewer-list-levels", "var-fewer-list-levels",
 ];
 
 fn inject(rng: &mut Rng, s: &Schema, doc: &mut Doc, kind: &str) -> Option<Fault> {
@@ -460,6 +463,88 @@ fn inject(rng: &mut Rng, s: &Schema, doc: &mut Doc, kind: &str) -> Option<Fault>
             *doc = Doc { ops, frags, features: vec![] };
             let rule = if kind == "shared-fragment-var-undeclared" { "vars_defined" } else { "var_usage_compatible" };
             Some(Fault { rule, what: format!("{} operations share fragment SF{} using $sv: {}; operation {} is the faulty one", n_ops, if transitive { " (through SG)" } else { "" }, good_ty, faulty), site: Site::Doc })
+        }
+        "var-fewer-list-levels" => {
+            fn levels(t: &Ty) -> usize { match t { Ty::NonNull(i) => levels(i), Ty::List(i) => 1 + levels(i), Ty::Named(_) => 0 } }
+            fn item(t: &Ty) -> Ty { match t { Ty::NonNull(i) => item(i), Ty::List(i) => (**i).clone(), Ty::Named(_) => t.clone() } }
+            let q = s.query.clone();
+            // (path field to reach parent P from the query root, P, field with arguments on P)
+            let mut fields: Vec<(Option<Field>, String, Field)> = vec![];
+            for f in s.fields_of(&q) { if !f.args.is_empty() { fields.push((None, q.clone(), f.clone())); } }
+            for r in s.fields_of(&q) {
+                if !r.args.iter().all(|a| !(a.ty.is_nonnull() && a.default.is_none())) { continue; }
+                let p = r.ty.named().to_string();
+                if !s.is_composite(&p) { continue; }
+                for f in s.fields_of(&p) { if !f.args.is_empty() { fields.push((Some(r.clone()), p.clone(), f.clone())); } }
+            }
+            // (…, argument, Some(input field) when the position is a field of the input object given for the argument)
+            let mut cands: Vec<(Option<Field>, String, Field, Arg, Option<Arg>)> = vec![];
+            for (path, parent, f) in &fields {
+                for a in &f.args {
+                    if levels(&a.ty) > 0 { cands.push((path.clone(), parent.clone(), f.clone(), a.clone(), None)); }
+                    if let Some(TypeDef { kind: Kind::Input { fields: ifs }, .. }) = s.get(a.ty.named()) {
+                        for fl in ifs { if levels(&fl.ty) > 0 { cands.push((path.clone(), parent.clone(), f.clone(), a.clone(), Some(fl.clone()))); } }
+                    }
+                }
+            }
+            if cands.is_empty() { return None; }
+            let (path, parent, f, a, infield) = rng.pick(&cands).clone();
+            // the type of the position the variable is written at
+            let mut loc = match &infield { Some(fl) => fl.ty.clone(), None => a.ty.clone() };
+            // optionally one level down: `[$lv]`, the position is an item of a list literal
+            let mut in_list = 0;
+            while levels(&loc) > 1 && rng.chance(1, 3) { loc = item(&loc); in_list += 1; }
+            let good_ty = loc.render();
+            let strip = rng.range(1, levels(&loc));
+            let mut vt = loc.clone();
+            for _ in 0..strip { vt = item(&vt); }
+            let vt = if rng.chance(1, 2) { vt.nullable().clone() } else { Ty::NonNull(Box::new(vt.nullable().clone())) };
+            let bad_ty = vt.render();
+            let mut use_txt = "$lv".to_string();
+            for _ in 0..in_list { use_txt = format!("[{}]", use_txt); }
+            let arg_val = match &infield {
+                None => use_txt.clone(),
+                Some(fl) => {
+                    let ifs = match s.get(a.ty.named()) { Some(TypeDef { kind: Kind::Input { fields }, .. }) => fields.clone(), _ => return None };
+                    let mut parts = vec![format!("{}: {}", fl.name, use_txt)];
+                    for o in &ifs { if o.name != fl.name && o.ty.is_nonnull() && o.default.is_none() { parts.push(format!("{}: {}", o.name, valid_lit(rng, s, &o.ty))); } }
+                    format!("{{{}}}", parts.join(", "))
+                }
+            };
+            let mut args = vec![(a.name.clone(), arg_val)];
+            for o in &f.args { if o.name != a.name && o.ty.is_nonnull() && o.default.is_none() { args.push((o.name.clone(), valid_lit(rng, s, &o.ty))); } }
+            let sub = if s.is_composite(f.ty.named()) { Some(vec![Sel::Field { alias: None, name: "__typename".into(), args: vec![], dirs: vec![], sub: None }]) } else { None };
+            let use_sel = Sel::Field { alias: Some("lv".into()), name: f.name.clone(), args, dirs: vec![], sub };
+            // directly in the operation, in a fragment, or in a fragment spread by a fragment
+            let place = rng.below(3);
+            let mut frags = vec![];
+            let body = match place {
+                0 => use_sel,
+                1 => { frags.push(Frag { name: "LF".into(), cond: parent.clone(), dirs: vec![], sel: vec![use_sel] }); Sel::Spread { name: "LF".into(), dirs: vec![] } }
+                _ => {
+                    frags.push(Frag { name: "LF".into(), cond: parent.clone(), dirs: vec![], sel: vec![Sel::Field { alias: None, name: "__typename".into(), args: vec![], dirs: vec![], sub: None }, Sel::Spread { name: "LG".into(), dirs: vec![] }] });
+                    frags.push(Frag { name: "LG".into(), cond: parent.clone(), dirs: vec![], sel: vec![use_sel] });
+                    Sel::Spread { name: "LF".into(), dirs: vec![] }
+                }
+            };
+            let n_ops = rng.range(1, 2);
+            let faulty = rng.below(n_ops);
+            let mut ops = vec![];
+            for i in 0..n_ops {
+                let vars = vec![VarDef { name: "lv".into(), ty: if i == faulty { bad_ty.clone() } else { good_ty.clone() }, default: None, dirs: vec![] }];
+                let sel = match &path {
+                    None => vec![body.clone()],
+                    Some(r) => vec![Sel::Field { alias: None, name: r.name.clone(), args: vec![], dirs: vec![], sub: Some(vec![body.clone()]) }],
+                };
+                ops.push(Op { kind: "query".into(), name: Some(format!("L{}", i)), vars, dirs: vec![], sel, shorthand: false });
+            }
+            *doc = Doc { ops, frags, features: vec![] };
+            Some(Fault { rule: "var_usage_compatible",
+                         what: format!("$lv: {} used as {} where {} is expected ({} list level(s) fewer; {}{}); operation {} of {}",
+                                       bad_ty, use_txt, good_ty, strip,
+                                       match &infield { Some(fl) => format!("input field {}.{} of argument {}", a.ty.named(), fl.name, a.name), None => format!("argument {}", a.name) },
+                                       match place { 0 => "", 1 => ", in a fragment", _ => ", in a fragment spread by a fragment" }, faulty, n_ops),
+                         site: Site::Doc })
         }
         "int-out-of-range" => {
             // an Int argument (possibly inside a list) gets a literal outside the signed 32-bit range (/repo commit 556742c)
@@ -900,6 +985,7 @@ fn c04_mode() -> bool { std::env::args().collect::<Vec<_>>().windows(2).any(|w| 
 /// hand-written documents: (schema SDL, document, known-finding classes, note)
 fn corpus() -> Vec<(&'static str, &'static str, Vec<&'static str>, &'static str)> {
     const S1: &str = "scalar JSON\nenum E { A B }\ninput In { a: Int b: Int r: String! = \"d\" l: [In!] }\ninput Req { must: Int! opt: Int }\ninterface I { id: ID! self: I }\ninterface J implements I { id: ID! self: I j: Int }\ntype A implements I { id: ID! self: I a(x: Int! = 3, f: Float, ids: [ID!], e: E, i: In, q: Req, j: JSON): Int }\ntype B implements I & J { id: ID! self: I j: Int b: String }\ntype C { c: Int }\nunion U = A | C\nunion V = B | C\ntype Query { i: I j: J a: A u: U v: V n(x: Int!): Int }\ntype Subscription { s: Int t: Int }\ndirective @tag(name: String!) repeatable on FIELD | FRAGMENT_DEFINITION | FRAGMENT_SPREAD | INLINE_FRAGMENT | VARIABLE_DEFINITION | QUERY\ndirective @once(n: Int = 1) on FIELD | QUERY\n";
+    const S2: &str = "type User { id: ID! name: String }\ninput Filter { ids: [ID!] matrix: [[Int]] }\ntype Query { me: User users(ids: [ID], filter: Filter): [User] }\ndirective @tag(names: [String!]) on FIELD\n";
     vec![
         // known defects
         (S1, "query Q { a { id } }\nfragment U on A { nonexistent }\n", vec![], "a fragment no operation spreads (not validated before commit c67e45e)"),
@@ -938,6 +1024,14 @@ fn corpus() -> Vec<(&'static str, &'static str, Vec<&'static str>, &'static str)
         // unspread fragments are validated on their own, variables excepted (commit c67e45e)
         (S1, "query Q { a { id } }\nfragment U on A { a(x: $nope, zz: 1) ...V }\nfragment V on A { ...U nonexistent }\nfragment W on A { a(i: {a: \"s\"}, j: [$x]) }\n", vec![], "unspread fragments: argument errors, a cycle, an unknown field; variables are not reported"),
         (S1, "query Q($i: Int) { a { ...F } }\nfragment F on A { a(x: $i) ...G }\nfragment G on I { id }\nfragment U on A @tag(name: \"u\") { a(x: $nope, j: [$free]) ...V ... on I { id } }\nfragment V on I { self { ...G } }\nfragment W on Query { n(x: 1) a { ...U } }\n", vec![], "an accepted document with never-spread fragments (U, V, W): every rule holds in them; their variables are nobody's"),
+        // list input coercion does not apply to variables (5.8.5 AreTypesCompatible): fewer list levels than the position
+        (S2, "query($id: ID) { users(ids: $id) { id } }\n", vec![], "ID variable at [ID]"),
+        (S2, "query($id: ID!) { users(ids: $id) { id } }\n", vec![], "ID! variable at [ID]"),
+        (S2, "query($id: ID!) { users(filter: { ids: $id }) { id } }\n", vec![], "ID! variable at input field [ID!]"),
+        (S2, "query($row: [Int]) { users(filter: { matrix: $row }) { id } }\n", vec![], "[Int] variable at input field [[Int]]"),
+        (S2, "query($n: String!) { me { ...F } }\nfragment F on User { name @tag(names: $n) }\n", vec![], "String! variable at directive argument [String!], in a fragment"),
+        (S2, "query($n: Int) { users(filter: { matrix: [$n] }) { id } }\n", vec![], "Int variable as an item of a list literal at [[Int]] (item position [Int])"),
+        (S2, "query($ids: [ID], $m: [[Int]], $ns: [String!], $r: [Int], $i: ID!) { users(ids: $ids, filter: {matrix: $m, ids: [$i]}) { id name @tag(names: $ns) } b: users(filter: {matrix: [$r]}) { id } }\n", vec![], "list variables at list positions of the same depth: valid"),
     ]
 }
 
